@@ -9,6 +9,11 @@ Property theorems (the rest are helper lemmas `aux_*`):
   fail_counter_only_errors                    results without an error touch no failure counter
   fail_counter_old_counterexample             the behaviour before the fix (created, never incremented)
   observe_order_independent                   any order of observation (hence concurrent observation) shows the same scrape
+Extension (attack.go processAttack, NewMetrics):
+  pump_output_is_observed / pump_scrape_eq_output / pump_scrape_covers_output   every written result has been observed, at every
+                                              prefix of events (signals, drains, failed Encode): scrape = sums over the output
+  pump_without_metrics                        pm == nil observes nothing
+  instances_independent / instance_shows_own_results   Metrics instances do not share tables
 -/
 import Vegeta.Model.Prom
 import Vegeta.Proofs.F64Order
@@ -459,5 +464,221 @@ example : lookup ⟨[71], [97], 200⟩ (observeAll State.init sample).bytesIn = 
     (lookup ⟨[71], [97], 200⟩ (observeAll State.init sample).hist).map countsOf = some (2, [1, 1, 1, 1, 1, 1, 1, 1, 2, 2, 2]) ∧
     (failing ⟨[71], [97], 500⟩ [120] sample).length = 2 ∧
     lookup (⟨[71], [97], 500⟩, [120]) (observeAll State.init sample).fail = some 2 := by decide +kernel
+
+/-! ## Extension: the attack command's glue (attack.go) and independent `Metrics` instances -/
+
+theorem aux_observeAll_snoc (s : State) (rs : List Result) (r : Result) :
+    observeAll s (rs ++ [r]) = observe (observeAll s rs) r := by
+  simp [observeAll, List.foldl_append]
+
+/-- invariant of `processAttack`: the metrics hold exactly the encoded results, plus the one result whose
+`Encode` failed (it was observed before the failing `Encode`; the function then returned the error) -/
+def PumpInv (st0 : State) (s : Pump) : Prop :=
+  ∃ extra : List Result, s.pm = some (observeAll st0 (s.encoded ++ extra)) ∧
+    (extra ≠ [] → s.ret = .retErr) ∧ extra.length ≤ 1
+
+theorem aux_pumpStep_inv (st0 : State) (s : Pump) (e : PEv) (h : PumpInv st0 s) : PumpInv st0 (pumpStep s e) := by
+  unfold pumpStep
+  split
+  · exact h
+  · rename_i hrun
+    have hrun' : s.ret = .running := by simpa using hrun
+    obtain ⟨extra, hpm, hext, hlen⟩ := h
+    have hnil : extra = [] := by
+      by_cases he : extra = []
+      · exact he
+      · have := hext he; rw [hrun'] at this; cases this
+    subst hnil
+    simp only [List.append_nil] at hpm
+    cases e with
+    | signal =>
+      simp only []
+      split
+      · exact ⟨[], by simpa using hpm, by simp, by simp⟩
+      · exact ⟨[], by simpa using hpm, by simp, by simp⟩
+    | closed => exact ⟨[], by simpa using hpm, by simp, by simp⟩
+    | result r encOk =>
+      simp only []
+      split
+      · exact ⟨[], by simp [hpm, aux_observeAll_snoc], by simp, by simp⟩
+      · exact ⟨[r], by simp [hpm, aux_observeAll_snoc], by simp, by simp⟩
+
+theorem aux_pumpRun_inv (st0 : State) (evs : List PEv) : ∀ s, PumpInv st0 s → PumpInv st0 (evs.foldl pumpStep s) := by
+  induction evs with
+  | nil => intro s h; exact h
+  | cons e t ih => intro s h; exact ih _ (aux_pumpStep_inv st0 s e h)
+
+/-- **Every result in the encoder's output has been observed** — after every prefix of events of
+`processAttack` (signals, results with succeeding or failing `Encode`, the channel closing, in any order and
+number), the metrics are exactly the observation of the written results, in order, plus at most the one result
+whose `Encode` failed and made the function return that error. Results that arrive after the first signal are
+no exception. -/
+theorem pump_output_is_observed (st0 : State) (evs : List PEv) :
+    ∃ extra : List Result, (pumpRun (some st0) evs).pm = some (observeAll st0 ((pumpRun (some st0) evs).encoded ++ extra)) ∧
+      (extra ≠ [] → (pumpRun (some st0) evs).ret = .retErr) ∧ extra.length ≤ 1 :=
+  aux_pumpRun_inv st0 evs (Pump.start (some st0)) ⟨[], by simp [Pump.start, observeAll], by simp, by simp⟩
+
+/-- **The scrape equals the sums over the output** whenever no `Encode` has failed — during the attack, after
+the first signal while in-flight results drain, and when the attack has ended: with fresh metrics the state is
+`observeAll State.init encoded`, so every theorem of this file applies to the written results. -/
+theorem pump_scrape_eq_output (evs : List PEv) (h : (pumpRun (some State.init) evs).ret ≠ .retErr) :
+    (pumpRun (some State.init) evs).pm = some (observeAll State.init (pumpRun (some State.init) evs).encoded) := by
+  obtain ⟨extra, hpm, hext, _⟩ := pump_output_is_observed State.init evs
+  have : extra = [] := by
+    by_cases he : extra = []
+    · exact he
+    · exact absurd (hext he) h
+  subst this
+  simpa using hpm
+
+theorem aux_matching_append (k : Labels) (a b : List Result) : matching k (a ++ b) = matching k a ++ matching k b := by
+  simp [matching]
+
+theorem aux_sumNat_append (a b : List Nat) : sumNat (a ++ b) = sumNat a + sumNat b := by
+  induction a with
+  | nil => simp [sumNat]
+  | cons x t ih => simp only [List.cons_append, sumNat, ih]; omega
+
+/-- **A scrape never falls short of the output file**: at every moment, for every label set with a written
+result, the bytes counters are at least the sums over the written results and the histogram has at least as
+many samples as there are written results (they exceed them only by the one result of a failed `Encode`). -/
+theorem pump_scrape_covers_output (evs : List PEv) (k : Labels)
+    (hne : matching k (pumpRun (some State.init) evs).encoded ≠ []) :
+    ∃ st, (pumpRun (some State.init) evs).pm = some st ∧
+      (∃ v, lookup k st.bytesIn = some v ∧ sumNat ((matching k (pumpRun (some State.init) evs).encoded).map (·.bytesIn)) ≤ v) ∧
+      (∃ v, lookup k st.bytesOut = some v ∧ sumNat ((matching k (pumpRun (some State.init) evs).encoded).map (·.bytesOut)) ≤ v) ∧
+      (∃ c, lookup k st.hist = some c ∧ (matching k (pumpRun (some State.init) evs).encoded).length ≤ c.count) := by
+  obtain ⟨extra, hpm, _, _⟩ := pump_output_is_observed State.init evs
+  generalize (pumpRun (some State.init) evs).encoded = enc at hne hpm ⊢
+  have hne' : matching k (enc ++ extra) ≠ [] := by
+    rw [aux_matching_append]; intro h; exact hne (List.append_eq_nil_iff.mp h).1
+  refine ⟨_, hpm, ?_, ?_, ?_⟩
+  · refine ⟨sumNat ((matching k (enc ++ extra)).map (·.bytesIn)), by rw [(bytes_counters_are_sums _ k).1]; simp [hne'], ?_⟩
+    rw [aux_matching_append, List.map_append, aux_sumNat_append]; omega
+  · refine ⟨sumNat ((matching k (enc ++ extra)).map (·.bytesOut)), by rw [(bytes_counters_are_sums _ k).2]; simp [hne'], ?_⟩
+    rw [aux_matching_append, List.map_append, aux_sumNat_append]; omega
+  · obtain ⟨c, hc, hcount, _⟩ := (hist_count_and_sum (enc ++ extra) k).2 hne'
+    refine ⟨c, hc, ?_⟩
+    rw [hcount, aux_matching_append, List.length_append]; omega
+
+/-- Without `-prometheus-addr` (`pm == nil`) nothing is observed and the output is written all the same. -/
+theorem pump_without_metrics (evs : List PEv) : (pumpRun none evs).pm = none := by
+  have : ∀ s : Pump, s.pm = none → (evs.foldl pumpStep s).pm = none := by
+    induction evs with
+    | nil => intro s h; exact h
+    | cons e t ih =>
+      intro s h
+      apply ih
+      unfold pumpStep
+      split
+      · exact h
+      · cases e with
+        | signal => simp only []; split <;> exact h
+        | closed => exact h
+        | result r ok => simp only []; split <;> simp [h]
+  exact this _ rfl
+
+example : (pumpRun (some State.init)
+    [.result ⟨[71], [97], 200, 1, 2, 5, []⟩ true, .signal, .result ⟨[71], [97], 500, 3, 4, 6, [120]⟩ true, .closed]).encoded.length = 2 ∧
+    (pumpRun (some State.init)
+    [.result ⟨[71], [97], 200, 1, 2, 5, []⟩ true, .signal, .result ⟨[71], [97], 500, 3, 4, 6, [120]⟩ true, .closed]).ret = .retNil := by
+  decide +kernel
+
+/-! ### independent instances -/
+
+theorem aux_modifyAt_other {α : Type} (f : α → α) (l : List α) (i j : Nat) (h : i ≠ j) : (modifyAt f l i)[j]? = l[j]? := by
+  induction l generalizing i j with
+  | nil => rfl
+  | cons x t ih =>
+    cases i with
+    | zero => cases j with
+      | zero => exact absurd rfl h
+      | succ j => rfl
+    | succ i => cases j with
+      | zero => rfl
+      | succ j => simp only [modifyAt, List.getElem?_cons_succ]; exact ih i j (by omega)
+
+theorem aux_modifyAt_same {α : Type} (f : α → α) (l : List α) (i : Nat) : (modifyAt f l i)[i]? = (l[i]?).map f := by
+  induction l generalizing i with
+  | nil => rfl
+  | cons x t ih => cases i with
+    | zero => rfl
+    | succ i => simp only [modifyAt, List.getElem?_cons_succ]; exact ih i
+
+theorem aux_modifyAt_length {α : Type} (f : α → α) (l : List α) (i : Nat) : (modifyAt f l i).length = l.length := by
+  induction l generalizing i with
+  | nil => rfl
+  | cons x t ih => cases i <;> simp [modifyAt, ih]
+
+/-- **Two `Metrics` instances are independent**: observing into one instance leaves the tables of every
+other instance unchanged, and creating a new instance changes none of the existing ones. -/
+theorem instances_independent (w : List State) (i j : Nat) (r : Result) (h : i ≠ j) :
+    (worldStep w (.observe i r))[j]? = w[j]? ∧ (j < w.length → (worldStep w .new)[j]? = w[j]?) := by
+  refine ⟨aux_modifyAt_other _ w i j h, ?_⟩
+  intro hj
+  simp only [worldStep]
+  rw [List.getElem?_append_left hj]
+
+/-- the results observed into instance `j`, given that `n` instances exist already -/
+def directedTo (j : Nat) : Nat → List WOp → List Result
+  | _, [] => []
+  | n, .new :: ops => directedTo j (n + 1) ops
+  | n, .observe i r :: ops => if i = j ∧ j < n then r :: directedTo j n ops else directedTo j n ops
+
+def newCount : List WOp → Nat
+  | [] => 0
+  | .new :: ops => newCount ops + 1
+  | .observe _ _ :: ops => newCount ops
+
+theorem aux_world (j : Nat) (ops : List WOp) : ∀ w : List State,
+    (ops.foldl worldStep w)[j]? =
+      if j < w.length then (w[j]?).map (fun st => observeAll st (directedTo j w.length ops))
+      else if j < w.length + newCount ops then some (observeAll State.init (directedTo j w.length ops)) else none := by
+  induction ops with
+  | nil =>
+    intro w
+    simp only [List.foldl_nil, directedTo, observeAll, newCount, Nat.add_zero]
+    by_cases h : j < w.length
+    · simp [h]
+    · simp [h]
+  | cons op t ih =>
+    intro w
+    simp only [List.foldl_cons]
+    rw [ih]
+    cases op with
+    | new =>
+      simp only [worldStep, List.length_append, List.length_singleton, directedTo, newCount]
+      by_cases h : j < w.length
+      · have h' : j < w.length + 1 := by omega
+        simp only [h, h', ↓reduceIte, List.getElem?_append_left h]
+      · by_cases h2 : j = w.length
+        · subst h2
+          have : w.length < w.length + 1 := by omega
+          simp only [this, ↓reduceIte, Nat.lt_irrefl]
+          have hh : w.length < w.length + (newCount t + 1) := by omega
+          simp [hh, observeAll]
+        · have h' : ¬ j < w.length + 1 := by omega
+          have e : w.length + 1 + newCount t = w.length + (newCount t + 1) := by omega
+          simp only [h, h', ↓reduceIte, e]
+          by_cases hc : j < w.length + (newCount t + 1) <;> simp [hc]
+    | observe i r =>
+      simp only [worldStep, aux_modifyAt_length, directedTo, newCount]
+      by_cases h : j < w.length
+      · by_cases hi : i = j
+        · subst hi
+          simp [h, aux_modifyAt_same, observeAll]
+        · simp [h, hi, aux_modifyAt_other _ w i j hi]
+      · simp [h]
+
+/-- **Every instance shows exactly its own observations**: after any sequence of `NewMetrics()` calls and
+`Observe` calls on arbitrary instances, instance `j` exists iff it was created, and its tables are those of
+observing — into fresh metrics — exactly the results that were observed into instance `j`, in order. -/
+theorem instance_shows_own_results (ops : List WOp) (j : Nat) :
+    (worldRun ops)[j]? = if j < newCount ops then some (observeAll State.init (directedTo j 0 ops)) else none := by
+  have := aux_world j ops []
+  simpa [worldRun] using this
+
+example : (worldRun [.new, .new, .observe 0 ⟨[71], [97], 200, 1, 2, 5, []⟩, .observe 1 ⟨[71], [98], 200, 7, 2, 5, []⟩])[1]? =
+    some (observeAll State.init [⟨[71], [98], 200, 7, 2, 5, []⟩]) := by decide +kernel
 
 end Vegeta.Props.C20
